@@ -15,10 +15,11 @@ import (
 )
 
 type Op struct {
-	Op    string          `json:"op"` // U update, SA sendall, W wait for the updater's own save, S save (mode direct), R restart a second dastard on the directory
+	Op    string          `json:"op"` // U update, SA sendall, W wait for the updater's own save, S save (mode direct), R start a second dastard on the directory, K kill during the last save and start again (mode direct), SAQ SendAllStatus through the real RPC method while the updater's queue is full (mode hist)
 	Tag   string          `json:"tag,omitempty"`
 	Typed bool            `json:"typed,omitempty"`
 	Val   json.RawMessage `json:"val,omitempty"`
+	N     int64           `json:"n,omitempty"` // K: the state of the last save's trace at which dastard is killed
 }
 
 type Case struct {
@@ -112,6 +113,11 @@ func classify(c Case, tags map[string]bool) {
 			tags["direct-save"] = true
 		case "R":
 			tags["restart-op"] = true
+		case "K":
+			tags["kill-op"] = true
+		case "SAQ":
+			tags["sendall-via-rpc-method"] = true
+			tags["sendall"] = true
 		}
 	}
 	if c.Dir.Init == nil {
